@@ -207,7 +207,17 @@ add(Gram("o3", Level([_o3, Named("switch", "s", ["sw"])], make=lambda v: ((v[0].
          short_flags="s", short_args="ab", note="group of two required arguments under fallback_with"))
 add(Gram("a4", None, short_flags="abcs", names=("abcs", ["alpha", "beta", "gamma", "sw"], []), note="repeated choice between three flags"))
 C01_GRAMMARS.append("g4")
+C01_GRAMMARS.append("c5")
 C06_GRAMMARS.append("o3")
+
+add(Gram("c5", Level([
+    Named("switch", "v", ["verbose"]),
+    Cmds([Cmd(["add"], _c1_add)], optional=True),
+]), short_flags="vn", note="optional subcommand under catch"))
+add(Gram("c6", Level([
+    Named("switch", "v", ["verbose"]),
+    Cmds([Cmd(["rm"], _c1_rm)], optional=True),
+]), short_flags="v", short_args="f", note="repeated subcommand (reference Level describes the chain only; not used differentially)"))
 
 add(Gram("k5", None, short_flags="rs", short_args="w", names=("rsw", ["rect", "sw", "width"], []), note="switch, then optional adjacent group (flag + argument), then optional positional"))
 
@@ -218,4 +228,4 @@ add(Gram("hd", Level([
     _hd_secret,
     Named("arg", "b", ["beta"], arity="opt"),
     Pos("opt"),
-]), short_flags="as", short_args="b", note="hidden switch next to visible items"))
+]), short_flags="a", short_args="b", note="hidden switch next to visible items (ParseHide::meta is Meta::Skip, so the hidden short is not in the tokenizer's table)"))
